@@ -70,8 +70,8 @@ def redirectTarget (cur : Req) (loc : Bytes) : Res Req :=
     number of requests already made -/
 def checkRedirect (pol : Policy) (strict : Bool) (first nxt : Req) (n : Nat) : Res Unit :=
   if pol.strictHttpsRedirect && strict && nxt.scheme ≠ sHttps then .err "http:redirect-refused" else
-  if pol.sameOriginRedirect && (nxt.scheme ≠ sHttps || nxt.host ≠ first.host) then .err "http:redirect-refused" else
-  if n ≥ pol.maxRedirects then .err "http:too-many-redirects" else .ok ()
+  if n ≥ pol.maxRedirects then .err "http:too-many-redirects" else
+  if pol.sameOriginRedirect && (nxt.scheme ≠ first.scheme || nxt.host ≠ first.host) then .err "http:redirect-refused" else .ok ()
 
 /-- `http.Client.do`: requests made (in order) and the final response -/
 def clientLoop (pol : Policy) (strict : Bool) (srv : Nat → Req → Option Resp) (first : Req) :
